@@ -553,6 +553,10 @@ impl Drop for Traced {
 
 /// Run `wl` in a worker with the shim preloaded. `init_image`: directory content to start from.
 pub fn run_traced(wl: &Workload, init_image: Option<&Fs>, fault: Option<&J>) -> Result<Traced, String> {
+	run_traced_ext(wl, init_image, fault, false)
+}
+
+pub fn run_traced_ext(wl: &Workload, init_image: Option<&Fs>, fault: Option<&J>, probe_each: bool) -> Result<Traced, String> {
 	let work = crate::util::fresh_dir("trace");
 	let root = work.join("db");
 	std::fs::create_dir_all(&root).map_err(|e| format!("{e}"))?;
@@ -569,10 +573,11 @@ pub fn run_traced(wl: &Workload, init_image: Option<&Fs>, fault: Option<&J>) -> 
 	if let Some(f) = fault {
 		sj["fault"] = f.clone();
 	}
+	sj["probe_after_each"] = json!(probe_each);
 	std::fs::write(&spec, serde_json::to_string(&sj).unwrap()).map_err(|e| format!("{e}"))?;
 	let trace_file = work.join("trace.bin");
 	let exe = std::env::current_exe().map_err(|e| format!("{e}"))?;
-	let out = std::process::Command::new(exe)
+	let mut child = std::process::Command::new(exe)
 		.arg("worker")
 		.arg("trace")
 		.arg(&spec)
@@ -580,8 +585,28 @@ pub fn run_traced(wl: &Workload, init_image: Option<&Fs>, fault: Option<&J>) -> 
 		.env("VSHIM_ROOT", &root)
 		.env("VSHIM_OUT", &trace_file)
 		.env("RAYON_NUM_THREADS", "1")
-		.output()
+		.stdout(std::process::Stdio::piped())
+		.stderr(std::process::Stdio::piped())
+		.spawn()
 		.map_err(|e| format!("spawn worker: {e}"))?;
+	// a worker that does not finish is reported as a hang (the caller decides what that means)
+	let t0 = std::time::Instant::now();
+	loop {
+		match child.try_wait() {
+			Ok(Some(_)) => break,
+			Ok(None) => {
+				if t0.elapsed().as_secs() > 60 {
+					let _ = child.kill();
+					let _ = child.wait();
+					let _ = std::fs::remove_dir_all(&work);
+					return Err("worker hang: no exit within 60 s".into());
+				}
+				std::thread::sleep(std::time::Duration::from_millis(2));
+			}
+			Err(e) => return Err(format!("wait worker: {e}")),
+		}
+	}
+	let out = child.wait_with_output().map_err(|e| format!("worker output: {e}"))?;
 	let stdout = String::from_utf8_lossy(&out.stdout).to_string();
 	let worker_out: J = stdout
 		.lines()
@@ -691,6 +716,7 @@ pub fn worker_trace(spec_file: &str) -> i32 {
 	let mut commit_idx = 0usize;
 	let mut fault_armed = false;
 	let fault = j.get("fault").cloned();
+	let probe_each = j["probe_after_each"].as_bool().unwrap_or(false);
 	let arm = |f: &J| {
 		shim_fault(f["nth"].as_i64().unwrap(), f["class"].as_i64().unwrap() as i32, f["errno"].as_i64().unwrap() as i32, f["persistent"].as_bool().unwrap_or(false), f["short"].as_bool().unwrap_or(false));
 	};
@@ -757,6 +783,15 @@ pub fn worker_trace(spec_file: &str) -> i32 {
 			Wop::P(p) => {
 				let r = w.physical(*p);
 				results.push(json!({"phys": p.as_str(), "ok": r.is_ok(), "err": r.err()}));
+			}
+		}
+		if probe_each && w.tree.is_some() {
+			let view = match w.dump() {
+				Ok(d) => json!(d.iter().map(|(k, _)| String::from_utf8_lossy(k).to_string()).collect::<Vec<_>>()),
+				Err(e) => json!({"probe_error": e}),
+			};
+			if let Some(last) = results.last_mut() {
+				last["view"] = view;
 			}
 		}
 	}
